@@ -141,7 +141,7 @@ func c03Input(r *fw.Rand) (string, string) {
 			tail = p[:r.Intn(len(p)+1)]
 		}
 	case 4:
-		tail = r.Pick([]string{" reason text", " 理由", "　全角", " because d20 said so", "测试", " # note", " ,", " 。"})
+		tail = r.Pick([]string{" reason text", " 理由", "　全角", " because d20 said so", "测试", " # note", " ,", " 。", " 理由：伤害＞３", " ＝＝ 3", "＞＝2 的时候", " a！＝b", " ＜＜提示＞＞", " x ＜＝ y", "＞", " ｜ 备注 ｜", " １２３"})
 	default:
 		tail = gen.RawBytes(r)
 	}
@@ -169,7 +169,7 @@ func c03Input(r *fw.Rand) (string, string) {
 					i = punct[r.Intn(len(punct))]
 				}
 			}
-			rs[i] = []rune(r.Pick([]string{"：", "＝", "；", "，", "（", "）", "［", "｛", "＋", "－", "＊", "？", "！", " ", "\t", "#", "@", "~", "$", "\\"}))[0]
+			rs[i] = []rune(r.Pick([]string{"：", "＝", "；", "，", "（", "）", "［", "｛", "＋", "－", "＊", "？", "！", " ", "\t", "#", "@", "~", "$", "\\", "＞", "＜", "＆", "｜", "／", "％", "＾", "。", "、", "“", "‘", "｝", "］"}))[0]
 			tail = string(rs)
 			sep := r.Pick([]string{" ", "", ",", ";", "\n"})
 			return head + sep + tail, fam
